@@ -882,7 +882,19 @@ func (m *Machine) endPath(kind string) {
 		abortf("path budget exceeded (%d)", m.cfg.PathLimit)
 	}
 	if kind == "return" && len(m.witnesses) < m.wantWitness {
-		m.takeWitness()
+		func() {
+			// a path kept on an `unknown` feasibility answer can turn out infeasible here
+			defer func() {
+				if r := recover(); r != nil {
+					if _, ok := r.(killPath); ok {
+						m.paths--
+						return
+					}
+					panic(r)
+				}
+			}()
+			m.takeWitness()
+		}()
 	}
 }
 
